@@ -112,7 +112,27 @@ def disagreement_known(d, known):
 
 
 def search(ctx):
-    pass
+    """A proof obligation / table / correspondence stream broke and the streams produced no witness: spend a larger budget on the
+    property's own oracle (independent structured reading vs the implementation), deeper programs, more seeds."""
+    parser = fw.impl()['parser']
+    rng = ctx.rng('search')
+    for _ in range(ctx.scale(2500, 20000)):
+        gen = progen.Gen(rng, max_depth=rng.choice([3, 4, 5, 6]))
+        prog = gen.program()
+        g = progen.random_globals(rng)
+        text = '\n'.join(progen.render(prog))
+        try:
+            model = parser.parse_script(text)
+        except Exception as exc:  # pylint: disable=broad-except
+            ctx.witness('generated-program-parses', {'text': text, 'globals': g}, 'a model', f'{type(exc).__name__}: {exc}')
+            return
+        impl = progen.run_impl(model, g, max_statements=600)
+        if 'error' in impl or 'hostexc' in impl:
+            continue
+        ref = progen.run_reference(prog, g)
+        if ref is not None and ref != progen.strip_hidden(impl) and not progen.has_while_continue(prog):
+            ctx.witness('structured-reading', {'text': text, 'globals': g}, ref, progen.strip_hidden(impl), while_continue=False)
+            return
 
 
 def replay(witness):
